@@ -37,6 +37,9 @@ enum Mutation {
     SpoofSource,
     /// presented from the genuine sender's IP but another UDP port
     SpoofPort,
+    /// presented from the socket the sender's record advertises (differs from the real one for a NATed /
+    /// stale record)
+    SpoofAdvertised,
     /// insert junk bytes behind the auth-data and patch the (masked) authdata-size field to cover
     /// them: XOR in the masked domain flips the same bits in the clear, so no key is needed
     GrowAuthData(usize),
@@ -77,8 +80,17 @@ fn schedule_base(w: &mut HWorld<X>, base: u64) {
 
 async fn run_async(ctx: &mut Ctx, enumerate: bool) {
     let mut w: HWorld<X> = HWorld::new(7_000);
+    // explored runs: a fifth on an IPv6-only network (the enumeration keeps its fixed IPv4 base exchanges)
+    let v6 = !enumerate && ctx.tape.choose(5) == 0;
+    if v6 {
+        ctx.count("ipv6_runs");
+        w.attacker_addrs = vec!["[fd00:9::1]:30303".parse().unwrap(), "[fd00:9::2]:30304".parse().unwrap()];
+    }
     for i in 0..3 {
         let mut c = NodeCfg::new(8 + i);
+        c.v6 = v6;
+        // explored runs: a peer's record sometimes advertises another port than it really sends from
+        c.advertise_other_port = !enumerate && ctx.tape.choose(5) == 0;
         c.request_timeout_ms = 1000;
         c.request_retries = 1;
         w.add_node(c).await;
@@ -217,7 +229,8 @@ async fn run_async(ctx: &mut Ctx, enumerate: bool) {
                         Mutation::None
                     }
                 } else {
-                    match ctx.tape.choose(11) {
+                    match ctx.tape.choose(12) {
+                        11 => Mutation::SpoofAdvertised,
                         10 => Mutation::SpoofPort,
                         9 => Mutation::GrowAuthData(1 + ctx.tape.choose(12) as usize),
                         0 | 1 => Mutation::FlipBit(ctx.tape.choose(len as u32 * 8) as usize),
@@ -280,6 +293,11 @@ async fn run_async(ctx: &mut Ctx, enumerate: bool) {
                         }
                         None => (rec.bytes.clone(), to, rec.src, "grow_auth_data"),
                     },
+                    Mutation::SpoofAdvertised => {
+                        let e = &w.nodes[from].enr;
+                        let adv = e.udp4_socket().map(SocketAddr::V4).or(e.udp6_socket().map(SocketAddr::V6)).unwrap_or(rec.src);
+                        (rec.bytes.clone(), to, adv, "advertised_source")
+                    }
                     Mutation::SpoofPort => {
                         let mut src = rec.src;
                         src.set_port(rec.src.port().wrapping_add(7));
@@ -344,7 +362,7 @@ async fn run_async(ctx: &mut Ctx, enumerate: bool) {
                         w.schedule(0, Ev::Custom(X::AppWhoAreYou { node, wref, enr }));
                     }
                     HandlerOut::Request(from, req) => {
-                        ctx.ev(format!("t={t} n{node} out Request({}) from {}", req.body, short_id(&from.node_id)));
+                        ctx.ev(format!("t={t} n{node} out Request({}) from {} @ {}", req.body, short_id(&from.node_id), from.socket_addr));
                         check_delivery(ctx, &w, &session_addr, node, &from, Message::Request((*req).clone()));
                         let total = if matches!(&req.body, RequestBody::FindNode { distances } if distances.as_slice() != [0]) { 2 } else { 1 };
                         for resp in w.default_response(node, &from, &req, total) {
@@ -404,34 +422,35 @@ fn check_delivery(ctx: &mut Ctx, w: &HWorld<X>, session_addr: &std::collections:
     // presented from address B must not be delivered as coming from (P, B)
     if carried {
         let rid_key = w.nodes[receiver].id;
-        let wrong = w.inbound[receiver].iter().rev().find_map(|rec| {
-            if rec.src != from.socket_addr {
-                return None;
-            }
-            let d = toolkit::decode_packet(&rid_key, &rec.bytes).ok()?;
+        // all (datagram, session) pairs that could have carried the message from the attributed address: the
+        // same request can travel in several datagrams (sent, replayed under new keys, carried in a handshake),
+        // some of which the receiver ignored; it is wrong only if none of them belongs to a session that was
+        // established with the attributed address
+        let mut session_addrs: Vec<Option<SocketAddr>> = vec![];
+        for rec in w.inbound[receiver].iter().filter(|rec| rec.src == from.socket_addr) {
+            let Ok(d) = toolkit::decode_packet(&rid_key, &rec.bytes) else { continue };
             if matches!(d.kind, PacketKind::WhoAreYou { .. }) {
-                return None;
+                continue;
             }
             for (i, (_, k)) in w.keylog.iter().enumerate() {
                 if k.local == rid_key && k.remote == from.node_id {
                     if let Some(pt) = toolkit::decrypt(&k.decryption_key, d.message_nonce, &d.message, &d.authenticated_data) {
                         if pt == enc {
-                            return Some(session_addr.get(&i).copied());
+                            session_addrs.push(session_addr.get(&i).copied());
                         }
                     }
                 }
             }
-            None
-        });
-        if let Some(Some(a)) = wrong {
-            if a != from.socket_addr {
-                ctx.fail(
-                    "c02.wrong-source-address",
-                    format!("n{receiver} delivered message r{rid_of} as coming from n{p} at {}, but it decrypts under a session that was established with n{p} at {a}", from.socket_addr),
-                    &[],
-                );
-                return;
-            }
+        }
+        let justified = session_addrs.iter().any(|a| a.map(|a| a == from.socket_addr).unwrap_or(true));
+        if !session_addrs.is_empty() && !justified {
+            let a = session_addrs.iter().flatten().next().copied().unwrap();
+            ctx.fail(
+                "c02.wrong-source-address",
+                format!("n{receiver} delivered message r{rid_of} as coming from n{p} at {}, but it decrypts only under a session that was established with n{p} at {a}", from.socket_addr),
+                &[],
+            );
+            return;
         }
     }
     if !carried {
